@@ -6,8 +6,8 @@ Driver for the descriptor model (C10).
         -> `ok <value-json> <enc>`   (enc = `ok:<hex>` | `err:<class>`: Codec.encode of the created value)
          | `err <class>`
   default <id> <Type>                        -> `ok <value-json>`   (state of `Type()`)
-  attrs <id> <Type>                          -> `ok a,b,c`           (names with hasattr true)
-  classify <id> <Type> <key-hex>             -> member|alias|readonly|shadow|unknown
+  attrs <id> <Type>                          -> `ok a,b,c`           (the properties of the class)
+  classify <id> <Type> <key-hex>             -> member|readonly|unknown
   enc <id> <Type> <value-json>               -> as driver_c01
 Descriptor wire format (no blanks anywhere: strings and keys travel as hex of their UTF-8):
   {"i":"123"} {"s":HEX} {"b":HEX} {"l":[..]} {"d":[[KEYHEX,v],..]} {"sdk":Class,"b":HEX} {"codec":Class,"v":VALUE} null
@@ -88,10 +88,6 @@ def parseConfig (S : Schema) (text : String) : Except String Config := do
     match (← e.getArr?).toList with
     | [a, b] => pure ((← a.getStr?), (← b.getNat?))
     | _ => throw "sdk class"
-  let classConsts ← (← (← j.getObjVal? "classConsts").getArr?).toList.mapM fun e => do
-    match (← e.getArr?).toList with
-    | [a, b] => pure ((← a.getStr?), (← (← b.getArr?).toList.mapM Json.getStr?))
-    | _ => throw "class consts"
   let kind ← match (← (← j.getObjVal? "addressKind").getStr?) with
     | "symbol" => pure symbolKind
     | "nem" => pure nemKind
@@ -110,9 +106,7 @@ def parseConfig (S : Schema) (text : String) : Except String Config := do
     addressTarget := ← (← j.getObjVal? "addressTarget").getStr?
     addressAsText := ← (← j.getObjVal? "addressAsText").getBool?
     idAutofill := ← (← j.getObjVal? "idAutofill").getBool?
-    messageHack := ← (← j.getObjVal? "messageHack").getBool?
-    classConsts := classConsts
-    objectAttrs := ← strList j "objectAttrs" }
+    messageHack := ← (← j.getObjVal? "messageHack").getBool? }
 
 def showE (e : E) : String :=
   (reprStr e).replace " " "_" |>.replace "\n" "_"
@@ -154,16 +148,14 @@ def handleReq (schemas : List (String × Schema)) (configs : List (String × Con
   | "attrs", [sid, ty] =>
     let cfg ← (configs.find? (·.1 == sid)).map (·.2)
     let d ← structOf cfg.schema ty
-    some ("ok " ++ ",".intercalate (attrNames cfg ty d))
+    some ("ok " ++ ",".intercalate (propertyNames d))
   | "classify", [sid, ty, key] =>
     let cfg ← (configs.find? (·.1 == sid)).map (·.2)
     let d ← structOf cfg.schema ty
     let k ← strArg key
-    some (match classify cfg ty d k with
-      | .member _ true => "member"
-      | .member _ false => "alias"
+    some (match classify d k with
+      | .member _ => "member"
       | .readOnly => "readonly"
-      | .shadow => "shadow"
       | .unknown => "unknown")
   | "enc", [sid, ty, vj] =>
     let S ← (schemas.find? (·.1 == sid)).map (·.2)
